@@ -203,7 +203,7 @@ Slots(k) ==
       [] OTHER -> <<>>
 FreeTokens(k) ==
     CASE k = "total"    -> Chars({97, 61, 59, 34, 92, 42, 39, 37, 58, 48, 32, 233, 0, 10})
-                             \cup {<<117,116,102,45,56,39,39>>, <<97,42,61>>, <<97,42,48,61>>}        \* utf-8'' a*= a*0=
+                             \cup {<<117,116,102,45,56,39,39>>, <<97,42,61>>, <<97,42,48,61>>, <<59,32,97,42,61>>}  \* utf-8'' a*= a*0= "; a*="
       [] k = "hostport" -> Chars({97, 58, 48, 57, 91, 93, 46, 32}) \cup {<<56,48,56,48>>, <<58,58,49>>}  \* 8080 ::1
       [] k = "reesc"    -> Chars({97, 46, 92, 42, 45, 32, 233, 48, 95, 10, 126, 35, 47})
       [] k = "ip"       -> Chars({58, 46, 48, 49, 103, 0, 32}) \cup {<<58,58>>, <<102,102,102,102>>, <<70,70>>, <<49,50,51,52,53>>,
